@@ -651,6 +651,51 @@ def _ancestors(py, node, stop):
         yield p
 
 
+def r13_metadata_accumulates(ctx, rep):
+    """list options written as repeated `key: value` lines (or continuation lines) accumulate: every store into the table that
+    `meta_preprocessor` returns appends to the entry, none replaces it.  (The TOML spelling of the same option is a list; a
+    store that overwrites keeps only the last line, so the two formats disagree - and `display:` written once per word,
+    C05, loses all but the last word.)"""
+    py = ctx.py
+    fn = py.ifunc("utils.meta_preprocessor")
+    tables = set()
+    for r in astq.returns(fn):
+        first = r.elts[0] if isinstance(r, ast.Tuple) and r.elts else r
+        if isinstance(first, ast.Name):
+            tables.add(first.id)
+    if not tables:
+        raise AnalysisError("meta_preprocessor: the returned table was not identified")
+    n = 0
+    for st in ast.walk(fn):
+        tg, val = None, None
+        if isinstance(st, ast.Assign) and len(st.targets) == 1:
+            tg, val = st.targets[0], st.value
+        elif isinstance(st, ast.AugAssign):
+            tg = st.target
+        if isinstance(tg, ast.Subscript) and isinstance(tg.value, ast.Name) and tg.value.id in tables:
+            n += 1
+            key = ast.unparse(tg.slice)
+            keeps = isinstance(st, ast.AugAssign) or any(
+                (isinstance(x, ast.Subscript) and isinstance(x.value, ast.Name) and x.value.id in tables and ast.unparse(x.slice) == key) or
+                (isinstance(x, ast.Call) and isinstance(x.func, ast.Attribute) and x.func.attr in ("get", "setdefault", "pop")
+                 and isinstance(x.func.value, ast.Name) and x.func.value.id in tables) for x in ast.walk(val))
+            rep.ob(f"meta_preprocessor: store `{ast.unparse(tg)}` keeps the earlier values", keeps,
+                   "extends the entry" if keeps else
+                   f"`{ast.unparse(st)[:70]}` replaces the entry: of `display: public` / `display: private` written on two lines "
+                   f"only the last survives, while the same list in fpm.toml keeps both", py.nloc(st))
+        if isinstance(st, ast.Call) and isinstance(st.func, ast.Attribute) and st.func.attr in ("append", "extend"):
+            b = st.func.value
+            if isinstance(b, ast.Call) and isinstance(b.func, ast.Attribute) and b.func.attr == "setdefault":
+                b = b.func.value
+            elif isinstance(b, ast.Subscript):
+                b = b.value
+            if isinstance(b, ast.Name) and b.id in tables:
+                n += 1
+                rep.ob(f"meta_preprocessor: `{ast.unparse(st.func)[:40]}` accumulates", True, "", py.nloc(st))
+    if n < 2:
+        raise AnalysisError(f"meta_preprocessor: only {n} stores into the metadata table found")
+
+
 RULES = [
     RuleSpec("C15.R4", r4_path_rooting, "relative paths are rooted at the project file's directory", floor=2),
     RuleSpec("C15.R8", r8_metadata_grammar, "markdown metadata grammar: key lines vs continuation lines", floor=2),
@@ -663,4 +708,5 @@ RULES = [
     RuleSpec("C15.R10", r10_normalisations_applied, "no computed normalisation is thrown away", floor=3),
     RuleSpec("C15.R11", r11_computed_fields_are_not_options, "computed (init=False) fields are not options", floor=2),
     RuleSpec("C15.R9", r9_values_recorded_as_written, "values are recorded as written; TOML values stay native", floor=2),
+    RuleSpec("C15.R13", r13_metadata_accumulates, "repeated metadata keys accumulate (lists agree between formats)", floor=2),
 ]
